@@ -68,3 +68,20 @@ void fx_fill_bad(uint8_t *buf, size_t buf_size, const uint8_t *a, size_t count) 
 	memcpy(buf, a, used);
 	memset((buf + count), 0x00, (buf_size - used));
 }
+
+/* stale length */
+static int fx_dec(const uint8_t *buf, size_t buf_size, size_t *used) { if (0 == buf_size) return (1); (*used) = (size_t)(1 + (buf[0] & 3)); return ((*used) > buf_size); }
+int fx_pair_ok(const uint8_t *buf, size_t buf_size) {
+	const uint8_t *cur = buf, *end = (buf + buf_size); size_t used = 0;
+	if (0 != fx_dec(cur, (size_t)(end - cur), &used)) return (1);
+	cur += used;
+	return (fx_dec(cur, (size_t)(end - cur), &used));
+}
+/* violation: the remaining size is computed once and reused after the cursor moved */
+int fx_pair_bad(const uint8_t *buf, size_t buf_size) {
+	const uint8_t *cur = buf, *end = (buf + buf_size); size_t used = 0, avail;
+	avail = (size_t)(end - cur);
+	if (0 != fx_dec(cur, avail, &used)) return (1);
+	cur += used;
+	return (fx_dec(cur, avail, &used));
+}
